@@ -202,6 +202,7 @@ def exec_hint(eng, p, h, idx):
             rem = rl + rh * R128
             assume(z3.And(s * s <= value, (s + 1) * (s + 1) > value, rem == value - s * s))
             flag = eng.setb(p, z3.If(2 * s - rem >= R128, z3.IntVal(1), z3.IntVal(0)), 0, 1)
+            occ.ins = (2 * s - rem, z3.IntVal(R128))  # comparison made tight by boundary witnesses
             for k, v in zip(outs, (s0, s1, rl, rh, flag)):
                 out(args[k], v)
     elif name == "LinearSplit":
@@ -220,6 +221,7 @@ def exec_hint(eng, p, h, idx):
                 t = fresh("t", 0, vh)
                 rr = fresh("rr", 0, P - 1)
                 assume(z3.And(zexpr(value) == t * zexpr(scalar) + rr, rr < zexpr(scalar)))
+                occ.ins = (t, zexpr(max_x))
                 x = z3.If(t < zexpr(max_x), t, zexpr(max_x))
                 _, mh = eng.bounds(p, max_x)
                 eng.setb(p, x, 0, min(vh, mh))
